@@ -190,7 +190,7 @@ func init() {
 		Judge: c09Judge, Finish: c09Finish,
 		Rule: "cases = histories over {dial-noaccept, accept-nodial, dial-twice (same id), dial-timeout-then-accept (late accept), accept-timeout-then-dial (late dial), accept-at-expiry (Accept lined up with the expiry of a parked connection through hook points)} x acting side, on MuxBroker, GRPCBroker and multiplexed GRPCBroker, each on its own in-process connection pair (both ends real go-plugin code), followed by a matched pair on a fresh id in each direction and a close; every single step per kind and side plus random histories of length 2-4. Class = kind + multiset of steps",
 		Assumptions: []string{
-			"nominal bound 5 s; a call counts as hung only after 60 s (3 x H, H = 20 s) for steps and 20 s for fresh pairs",
+			"nominal bound 5 s; a call counts as hung only after 40 s (2 x H, H = 20 s) for steps and 20 s for fresh pairs",
 			"for GRPCBroker an unmatched accept is an AcceptAndServe that is stopped through its server after 300 ms (Accept itself returns a listener at once)",
 			"multiplexed histories respect the documented one-outstanding-accept rule; the stale-knock history (dial times out, late accept, redial) is generated only as a dedicated single-step case",
 			"plugin side is in the same process (plugin.TestPluginRPCConn / TestPluginGRPCConn); goroutine-leak check is process-wide after all pairs are closed",
